@@ -1283,3 +1283,225 @@ Lemma shape_off_diag pre idx lens e0 P0 e1 P1 : (0 < P1)%nat -> shape P0 P1 (@of
 Proof.
   intros H. unfold off_diag. apply shape_madd; [apply shape_off_preload|]. apply shape_transpose; [apply shape_off_preload | exact H].
 Qed.
+
+(* ---- the stacked operated mapping matrix ---- *)
+Lemma off_cons o t k : off (o :: t) (S k) = (params o + off t k)%nat.
+Proof. unfold off, tp. cbn. reflexivity. Qed.
+Lemma hstack_row_cell (c : @convolver ROps) n k : forall objs i la,
+  (forall o, In o objs -> shape n (params o) (opmat c o)) -> (k < n)%nat -> (i < length objs)%nat -> (la < params (ob objs i))%nat ->
+  nth (off objs i + la) (concat (map (fun M : @mat ROps => nth k M []) (map (opmat c) objs))) 0 = mget (opmat c (ob objs i)) k la.
+Proof.
+  induction objs as [|o t IH]; intros i la Hsh Hk Hi Hla; [cbn in Hi; lia|].
+  assert (Ho : length (nth k (opmat c o) []) = params o) by (destruct (Hsh o (or_introl eq_refl)) as [_ H]; now apply H).
+  cbn [map concat]. destruct i as [|i].
+  - unfold off, ob in *. cbn [firstn nth] in *. cbn. rewrite app_nth1 by (rfix; lia). reflexivity.
+  - rewrite off_cons. rewrite app_nth2 by (rfix; lia). rfix. rewrite Ho.
+    replace (params o + off t i + la - params o)%nat with (off t i + la)%nat by lia.
+    unfold ob in *. cbn [nth] in *. apply IH; auto; [intros; apply Hsh; now right | cbn in Hi; lia].
+Qed.
+Lemma hstack_row_length (c : @convolver ROps) n k : forall objs,
+  (forall o, In o objs -> shape n (params o) (opmat c o)) -> (k < n)%nat ->
+  length (concat (map (fun M : @mat ROps => nth k M []) (map (opmat c) objs))) = tp objs.
+Proof.
+  induction objs as [|o t IH]; intros Hsh Hk; [reflexivity|]. cbn [map concat]. rewrite app_length, IH; auto; [|intros; apply Hsh; now right].
+  destruct (Hsh o (or_introl eq_refl)) as [_ H]. rfix. rewrite H by exact Hk. unfold tp. cbn. reflexivity.
+Qed.
+Lemma shape_op_matrix (c : @convolver ROps) objs n : (forall o, In o objs -> shape n (params o) (opmat c o)) ->
+  shape n (tp objs) (op_matrix c objs n).
+Proof.
+  intros H. unfold op_matrix, hstack. split; [now rewrite map_length, seq_length|]. intros a Ha.
+  rewrite nth_map_seq by exact Ha. now apply (hstack_row_length c n).
+Qed.
+Lemma op_matrix_cell (c : @convolver ROps) objs n k i la :
+  (forall o, In o objs -> shape n (params o) (opmat c o)) -> (k < n)%nat -> (i < length objs)%nat -> (la < params (ob objs i))%nat ->
+  mget (op_matrix c objs n) k (off objs i + la) = mget (opmat c (ob objs i)) k la.
+Proof.
+  intros Hsh Hk Hi Hla. rewrite mget_R. unfold op_matrix, hstack. rewrite nth_map_seq by exact Hk. now apply (hstack_row_cell c n).
+Qed.
+Lemma tp_cons o t : tp (o :: t) = (params o + tp t)%nat.
+Proof. reflexivity. Qed.
+Lemma locate_exists objs a : (a < tp objs)%nat -> exists i la, (i < length objs)%nat /\ (la < params (ob objs i))%nat /\ a = (off objs i + la)%nat.
+Proof.
+  revert a. induction objs as [|o t IH]; intros a Ha; [unfold tp in Ha; cbn in Ha; lia|].
+  destruct (lt_dec a (params o)) as [L|L].
+  - exists 0%nat, a. split; [cbn; lia|]. split; [exact L|]. reflexivity.
+  - assert (Ha' : (a - params o < tp t)%nat) by (rewrite tp_cons in Ha; lia).
+    destruct (IH _ Ha') as (i & la & H1 & H2 & H3). exists (S i), la. rewrite off_cons. unfold ob in *. cbn [nth length].
+    split; [lia|]. split; [exact H2|]. lia.
+Qed.
+
+(* normal-equation entry (without the diagonal term) on the stacked matrix *)
+Definition Snorm (B : @mat ROps) (s : list R) (n a b : nat) : R :=
+  sumR (map (fun k => mget B k a * mget B k b / (nth k s 0 * nth k s 0)) (seq 0 n)).
+Lemma Snorm_sym B s n a b : Snorm B s n a b = Snorm B s n b a.
+Proof. unfold Snorm. apply sumR_map_ext. intros k _. unfold Rdiv. ring. Qed.
+
+(* well-formed linear objects on n data pixels *)
+Definition wf_obj (c : @convolver ROps) (n : nat) (o : @lobj ROps) : Prop :=
+  (0 < params o)%nat /\ shape n (params o) (opmat c o) /\
+  match o with
+  | LMapper e M P _ => enc_ok e P /\ represents e M n P /\ length (e_dw e) = n /\ length (e_du e) = n /\ length M = n /\ ncols M = P
+  | LFunc _ _ _ _ => True
+  end.
+
+Lemma mapper_block_is_Bm (c : @convolver ROps) n e M P r k la : wf_obj c n (LMapper e M P r) -> frames_ok c n ->
+  (k < n)%nat -> (la < P)%nat -> mget (opmat c (LMapper e M P r)) k la = Bm e c n k la.
+Proof.
+  intros (_ & _ & He & Hrep & _ & _ & HM & HP) Hfr Hk Hla. cbn [opmat].
+  rewrite (convolve_matrix_is_Cop c M n) by (auto; lia). unfold Bm.
+  apply sumR_map_ext. intros s0 Hs0. apply in_seq in Hs0. rewrite Hrep by lia. reflexivity.
+Qed.
+
+Lemma dotTN_div_rows_Snorm (B : @mat ROps) (s : list R) p q :
+  (forall i, (i < length B)%nat -> nth i s 0 <> 0) -> (p < ncols B)%nat -> (q < ncols B)%nat ->
+  mget (dotTN (div_rows B s) (div_rows B s)) p q = Snorm B s (length B) p q.
+Proof.
+  intros Hs Hp Hq. rewrite mget_dotTN by (rewrite ncols_div_rows; assumption). rewrite div_rows_length. unfold Snorm.
+  apply sumR_map_ext. intros i Hi. apply in_seq in Hi. rewrite !mget_div_rows by lia. apply div_mul_div. apply Hs. lia.
+Qed.
+Lemma ncols_shape (M : @mat ROps) n p : shape n p M -> (0 < n)%nat -> ncols M = p.
+Proof. intros [HL HR] Hn. unfold ncols. rewrite hd_nth. apply HR. exact Hn. Qed.
+
+Section Main.
+  Variables (c : @convolver ROps) (noise : px -> R) (K : @kernel ROps) (nfs : list px) (objs : list (@lobj ROps)) (s : list R).
+  Let n := length nfs.
+  Hypothesis Hn : (0 < n)%nat.
+  Hypothesis Hfr : frames_ok c n.
+  Hypothesis Hs : forall i, (i < n)%nat -> nth i s 0 <> 0.
+  Hypothesis HW : W_is_overlap c s (@wt_dense ROps noise K nfs) n.
+  Hypothesis Hwf : forall o, In o objs -> wf_obj c n o.
+  Let pre := fst (fst (@preload ROps noise K nfs)).
+  Let idx := snd (fst (@preload ROps noise K nfs)).
+  Let lens := snd (@preload ROps noise K nfs).
+  Let B := op_matrix c objs n.
+
+  Lemma EP : @preload ROps noise K nfs = (pre, idx, lens).
+  Proof. unfold pre, idx, lens. destruct (@preload ROps noise K nfs) as [[? ?] ?]. reflexivity. Qed.
+  Lemma Hsh : forall o, In o objs -> shape n (params o) (opmat c o).
+  Proof. intros o Ho. now destruct (Hwf o Ho) as (_ & H & _). Qed.
+  Lemma ob_In i : (i < length objs)%nat -> In (ob objs i) objs.
+  Proof. intros. unfold ob. now apply nth_In. Qed.
+  Lemma B_cell k i la : (k < n)%nat -> (i < length objs)%nat -> (la < params (ob objs i))%nat ->
+    mget B k (off objs i + la) = mget (opmat c (ob objs i)) k la.
+  Proof. intros. unfold B. apply op_matrix_cell; auto using Hsh. Qed.
+  Lemma Snorm_cell i j la lb : (i < length objs)%nat -> (j < length objs)%nat -> (la < params (ob objs i))%nat -> (lb < params (ob objs j))%nat ->
+    Snorm B s n (off objs i + la) (off objs j + lb) =
+    sumR (map (fun k => mget (opmat c (ob objs i)) k la * mget (opmat c (ob objs j)) k lb / (nth k s 0 * nth k s 0)) (seq 0 n)).
+  Proof.
+    intros. unfold Snorm. apply sumR_map_ext. intros k Hk. apply in_seq in Hk. rewrite !B_cell by (auto; lia). reflexivity.
+  Qed.
+
+  (* every block the w-tilde formalism writes is the normal-equation block of its pair of objects *)
+  Lemma Gf_value i j la lb : (i < length objs)%nat -> (j < length objs)%nat -> (la < params (ob objs i))%nat -> (lb < params (ob objs j))%nat ->
+    is_mapper (ob objs i) = true \/ is_mapper (ob objs j) = false ->
+    mget (Gf c pre idx lens objs s (i, j)) la lb = Snorm B s n (off objs i + la) (off objs j + lb).
+  Proof.
+    intros Hi Hj Hla Hlb Hkind. rewrite Snorm_cell by assumption. unfold Gf. cbn [fst snd].
+    pose proof (Hwf _ (ob_In i Hi)) as Wi. pose proof (Hwf _ (ob_In j Hj)) as Wj.
+    destruct (ob objs i) as [e0 M0 P0 r0|M0 ov0 P0 r0] eqn:Ei; cbn [is_mapper params] in *.
+    - destruct (ob objs j) as [e1 M1 P1 r1|M1 ov1 P1 r1] eqn:Ej; cbn [is_mapper params] in *.
+      + (* mapper / mapper *)
+        transitivity (sumR (map (fun k => Bm e0 c n k la * Bm e1 c n k lb / (nth k s 0 * nth k s 0)) (seq 0 n))).
+        2:{ apply sumR_map_ext. intros k Hk. apply in_seq in Hk.
+            rewrite (mapper_block_is_Bm c n e0 M0 P0 r0), (mapper_block_is_Bm c n e1 M1 P1 r1) by (auto; lia). reflexivity. }
+        pose proof Wi as (_ & _ & He0 & _). pose proof Wj as (_ & _ & He1 & _).
+        destruct (Nat.eqb i j) eqn:X.
+        * apply Nat.eqb_eq in X. subst j. rewrite Ei in Ej. inversion Ej; subst e1 M1 P1 r1.
+          unfold diagB. rewrite Ei. cbn [enc_of params].
+          pose proof (wt_diag_block noise K nfs c s e0 P0 la lb HW He0 Hla Hlb) as H. rewrite EP in H. exact H.
+        * unfold offB. cbn [fst snd]. rewrite Ei, Ej. cbn [enc_of params].
+          pose proof (wt_off_block noise K nfs c s e0 P0 e1 P1 la lb HW He0 He1 Hla Hlb) as H. rewrite EP in H. exact H.
+      + (* mapper / function list *)
+        unfold mfB. cbn [fst snd]. rewrite Ei, Ej. cbn [enc_of params].
+        pose proof Wi as (_ & _ & He0 & _ & Hdw & _). pose proof Wj as (_ & Hshj & _). cbn [params] in Hshj.
+        rewrite (wt_mapper_func_block c e0 P0 _ s n la lb); auto.
+        * apply sumR_map_ext. intros k Hk. apply in_seq in Hk.
+          rewrite (mapper_block_is_Bm c n e0 M0 P0 r0) by (auto; lia). reflexivity.
+        * now destruct Hshj.
+        * rewrite (ncols_shape _ n P1); auto.
+    - destruct Hkind as [Hk|Hk]; [discriminate|].
+      destruct (ob objs j) as [e1 M1 P1 r1|M1 ov1 P1 r1] eqn:Ej; cbn [is_mapper params] in *; [discriminate|].
+      unfold ffB. cbn [fst snd]. rewrite Ei, Ej.
+      destruct Wi as (_ & Hshi & _). destruct Wj as (_ & Hshj & _). cbn [params] in Hshi, Hshj.
+      apply ff_block; auto; try (now destruct Hshi); try (now destruct Hshj).
+      * rewrite (ncols_shape _ n P0); auto.
+      * rewrite (ncols_shape _ n P1); auto.
+  Qed.
+
+  (* all blocks written by the w-tilde assembly are well placed, well shaped and determined by their tag *)
+  Lemma ob_wf i : (i < length objs)%nat -> wf_obj c n (ob objs i).
+  Proof. intros. apply Hwf, ob_In. assumption. Qed.
+  Lemma opmat_ncols i : (i < length objs)%nat -> ncols (opmat c (ob objs i)) = params (ob objs i).
+  Proof. intros Hi. destruct (ob_wf i Hi) as (_ & H & _). now apply (ncols_shape _ n). Qed.
+  Lemma wt_blocks_ok t : In t (wt_blocks c pre idx lens objs s) ->
+    blk_ok objs (Gf c pre idx lens objs s) t /\ (is_mapper (ob objs (fst (fst t))) = true \/ is_mapper (ob objs (snd (fst t))) = false).
+  Proof.
+    unfold wt_blocks. rewrite !in_app_iff. intros [H|[H|H]].
+    - apply in_map_iff in H. destruct H as [k [<- Hk]]. apply idxs_In in Hk. destruct Hk as [Hk Hm].
+      cbn [fst snd]. split; [|now left]. split; [exact Hk|]. split; [exact Hk|]. split.
+      + unfold Gf. cbn [fst snd]. now rewrite Hm, Nat.eqb_refl.
+      + unfold diagB. apply shape_curv_preload.
+    - apply in_map_iff in H. destruct H as [[k l] [<- Hkl]]. unfold idxs in Hkl. apply pairs_lt_filter_seq in Hkl.
+      destruct Hkl as (Hlt & Hk & Hl). fold (idxs is_mapper objs) in Hk, Hl. apply idxs_In in Hk, Hl.
+      destruct Hk as [Hk Hmk]. destruct Hl as [Hl Hml]. cbn [fst snd]. split; [|now left]. split; [exact Hk|]. split; [exact Hl|]. split.
+      + unfold Gf. cbn [fst snd]. rewrite Hmk, Hml. assert (Nat.eqb k l = false) as -> by (apply Nat.eqb_neq; lia). reflexivity.
+      + unfold offB. cbn [fst snd]. apply shape_off_diag. now destruct (ob_wf l Hl).
+    - destruct (existsb is_func objs); [|contradiction]. rewrite in_app_iff in H. destruct H as [H|H].
+      + apply in_map_iff in H. destruct H as [[k l] [<- Hkl]]. apply in_prod_iff in Hkl. destruct Hkl as [Hk Hl].
+        apply idxs_In in Hk, Hl. destruct Hk as [Hk Hmk]. destruct Hl as [Hl Hml]. unfold is_func in Hml. apply negb_true_iff in Hml.
+        cbn [fst snd]. split; [|now left]. split; [exact Hk|]. split; [exact Hl|]. split.
+        * unfold Gf. cbn [fst snd]. now rewrite Hmk, Hml.
+        * unfold mfB. cbn [fst snd]. rewrite <- (opmat_ncols l Hl). rewrite <- (ncols_div_rows_sq (opmat c (ob objs l)) s).
+          apply shape_off_mapper_func.
+      + apply in_map_iff in H. destruct H as [[k l] [<- Hkl]]. apply in_prod_iff in Hkl. destruct Hkl as [Hk Hl].
+        apply idxs_In in Hk, Hl. destruct Hk as [Hk Hmk]. destruct Hl as [Hl Hml]. unfold is_func in Hmk, Hml.
+        apply negb_true_iff in Hmk, Hml. cbn [fst snd]. split; [|now right]. split; [exact Hk|]. split; [exact Hl|]. split.
+        * unfold Gf. cbn [fst snd]. now rewrite Hmk.
+        * unfold ffB. cbn [fst snd]. rewrite <- (opmat_ncols k Hk), <- (opmat_ncols l Hl).
+          rewrite <- (ncols_div_rows (opmat c (ob objs k)) s), <- (ncols_div_rows (opmat c (ob objs l)) s). apply shape_dotTN.
+  Qed.
+  (* every pair of objects is written on at least one side of the diagonal *)
+  Definition tagged (i j : nat) : bool := existsb (fun t => tag_eqb (fst t) (i, j)) (wt_blocks c pre idx lens objs s).
+  Lemma tagged_intro i j B0 : In ((i, j), B0) (wt_blocks c pre idx lens objs s) -> tagged i j = true.
+  Proof. intros H. unfold tagged. apply existsb_exists. exists ((i, j), B0). split; auto. now apply tag_eqb_true. Qed.
+  Lemma tagged_some i j : (i < length objs)%nat -> (j < length objs)%nat -> tagged i j = true \/ tagged j i = true.
+  Proof.
+    intros Hi Hj.
+    assert (Hfunc : forall k, (k < length objs)%nat -> is_mapper (ob objs k) = false -> existsb is_func objs = true).
+    { intros k Hk Hm. apply existsb_exists. exists (ob objs k). split; [now apply ob_In|]. unfold is_func. now rewrite Hm. }
+    destruct (is_mapper (ob objs i)) eqn:Mi; destruct (is_mapper (ob objs j)) eqn:Mj.
+    - (* two mappers *)
+      destruct (lt_eq_lt_dec i j) as [[L|E]|L].
+      + left. apply (tagged_intro i j (offB pre idx lens objs (i, j))). unfold wt_blocks. rewrite !in_app_iff. right; left.
+        apply in_map_iff. exists (i, j). split; auto. unfold idxs. apply pairs_lt_filter_seq. fold (idxs is_mapper objs).
+        rewrite !idxs_In. auto.
+      + subst j. left. apply (tagged_intro i i (diagB pre idx lens objs i)). unfold wt_blocks. rewrite !in_app_iff. left.
+        apply in_map_iff. exists i. split; auto. apply idxs_In. auto.
+      + right. apply (tagged_intro j i (offB pre idx lens objs (j, i))). unfold wt_blocks. rewrite !in_app_iff. right; left.
+        apply in_map_iff. exists (j, i). split; auto. unfold idxs. apply pairs_lt_filter_seq. fold (idxs is_mapper objs).
+        rewrite !idxs_In. auto.
+    - left. apply (tagged_intro i j (mfB c objs s (i, j))). unfold wt_blocks. rewrite !in_app_iff. right; right.
+      rewrite (Hfunc j Hj Mj). rewrite in_app_iff. left. apply in_map_iff. exists (i, j). split; auto.
+      apply in_prod_iff. rewrite !idxs_In. unfold is_func. rewrite Mj. auto.
+    - right. apply (tagged_intro j i (mfB c objs s (j, i))). unfold wt_blocks. rewrite !in_app_iff. right; right.
+      rewrite (Hfunc i Hi Mi). rewrite in_app_iff. left. apply in_map_iff. exists (j, i). split; auto.
+      apply in_prod_iff. rewrite !idxs_In. unfold is_func. rewrite Mi. auto.
+    - left. apply (tagged_intro i j (ffB c objs s (i, j))). unfold wt_blocks. rewrite !in_app_iff. right; right.
+      rewrite (Hfunc i Hi Mi). rewrite in_app_iff. right. apply in_map_iff. exists (i, j). split; auto.
+      apply in_prod_iff. rewrite !idxs_In. unfold is_func. rewrite Mi, Mj. auto.
+  Qed.
+
+  (* the matrix before the mirror: each cell is the normal-equation value or (structurally) zero *)
+  Lemma premirror_cell i j la lb : (i < length objs)%nat -> (j < length objs)%nat -> (la < params (ob objs i))%nat -> (lb < params (ob objs j))%nat ->
+    let C := @F_wt_pre ROps c pre idx lens objs s in
+    shape (tp objs) (tp objs) C /\ mget C (off objs i + la) (off objs j + lb) = if tagged i j then Snorm B s n (off objs i + la) (off objs j + lb) else 0.
+  Proof.
+    intros Hi Hj Hla Hlb C. unfold C. rewrite F_wt_pre_blocks.
+    destruct (blocks_cell objs (Gf c pre idx lens objs s) (wt_blocks c pre idx lens objs s) i j la lb
+                (@zmat ROps (tp objs) (tp objs)) (shape_zmat _ _) (fun t H => proj1 (wt_blocks_ok t H)) Hi Hj Hla Hlb) as [S1 S2].
+    split; [exact S1|]. rewrite S2. fold (tagged i j). rewrite mget_zmat.
+    destruct (tagged i j) eqn:Tg; [|reflexivity].
+    apply Gf_value; auto. unfold tagged in Tg. apply existsb_exists in Tg. destruct Tg as [t [Hin Ht]].
+    apply tag_eqb_true in Ht. destruct (wt_blocks_ok t Hin) as [_ Hk]. rewrite Ht in Hk. exact Hk.
+  Qed.
+End Main.
